@@ -3,6 +3,7 @@ import itertools
 from driver.common import Case
 
 ID = "C12"
+NEEDS_BINARY = True
 LEAN_MODULES = ["Gv.Props.C12"]
 REQUIRED_THEOREMS = ["Gv.Props.C12." + n for n in [
     "trackers_spec", "removed_iff", "site_removed_iff", "ends_mode_removes_maximal_prefix_suffix",
@@ -43,7 +44,7 @@ def rows_str(rows):
     return ",".join("%s:%s" % r for r in rows) if rows else "_"
 
 
-def gen(rng, tier):
+def _gen_core(rng, tier):
     # bounded exhaustive: 2 rows x 3 columns
     k = 0
     for cols in itertools.product(SYM, repeat=6):
@@ -92,3 +93,22 @@ def shrink(c):
     if rows and len(rows[0][1]) > 1:
         for j in range(len(rows[0][1])):
             yield Case(c.op, [a[0], rows_str([(n, s[:j] + s[j + 1:]) for n, s in rows])] + a[2:])
+
+
+# ---- command-line glue: a multi-alignment Phylip input must be treated as its alignments one by one (`detmulti`) ----
+MULTI_CMDS = [['clean', 'sites', '-c', '0.3'], ['clean', 'sites', '-c', '0.3', '--positions', 'kept.txt', '--positions-rm', 'rm.txt'], ['clean', 'sites', '--char', 'MAJ', '-c', '0.6'], ['clean', 'seqs', '-c', '0.3'], ['clean', 'sites', '--ends', '-c', '0.2']]
+
+
+def gen(rng, tier):
+    from driver import multigen
+    for c in _gen_core(rng, tier):
+        yield c
+    for _ in range(2 if tier == "quick" else 20):
+        for argv in MULTI_CMDS:
+            yield multigen.multi_case(multigen.alignments(rng), argv, "cli-multi-" + "-".join(argv[:2]))
+
+
+def matches(c):
+    if c.op.startswith("det"):
+        return (c.impl or "").startswith("same")
+    return c.model == c.impl
